@@ -192,6 +192,9 @@ M = {
     'c03-reversed-corners-empty': ('C03', [(SRC + 'excel.py', "            replace(first, column=min(first.column, second.column), row=min(first.row, second.row) if rows_given else first.row),\n", "            first,\n"),
                                             (SRC + 'excel.py', "            replace(second, column=max(first.column, second.column), row=max(first.row, second.row) if rows_given else second.row))", "            second)")],
                                    'the same change seen from the entry-point side: the cells of such an area are left out of the slice'),
+    'c12-wildcard-stops-at-line-break': ('C12', [(CTX, "hit = re.fullmatch(self._wildcard_pattern(value), cell, re.IGNORECASE | re.DOTALL) is not None", "hit = re.fullmatch(self._wildcard_pattern(value), cell, re.IGNORECASE) is not None"),
+                                                 (ABS, "hit = re.fullmatch(self._wildcard_pattern(value), cell, re.IGNORECASE | re.DOTALL) is not None", "hit = re.fullmatch(self._wildcard_pattern(value), cell, re.IGNORECASE) is not None")],
+                                         'a wildcard does not run over a line break inside the cell text (both runtimes alike, so C20 cannot see it)'),
 }
 
 
